@@ -39,9 +39,18 @@ def gen(rng, inject=None):
     if rng.random() < 0.7:
         d["readme"] = rng.choice(["# Title\n\nBody text.\n", "Name: evil\nVersion: 9\n\nFrom me to you\nFrom: x\n", "line1\r\nline2\r\n", "Unicode ✓ ünï\n\n\ntrailing blank lines\n\n", ""])
     if inject:
-        d[inject] = {"description": "summary\nRequires-Dist: evil", "keywords": ["kw\nRequires-Dist: evil"],
-                     "authors": ["Eve\nRequires-Dist: evil <e@example.com>"], "classifiers": ["Topic :: X\nRequires-Dist: evil"],
-                     "urls": {"Home\nRequires-Dist: evil": "https://example.com"}}[inject]
+        # the twin without the line break is kept so that every other field can be compared with it
+        d["_twin"] = {k: v for k, v in d.items()}
+        shape = rng.choice(["interior", "interior", "trailing", "leading", "cr", "crlf-trailing", "blank-interior"])
+        def brk(base):
+            return {"interior": base + "\nRequires-Dist: evil", "trailing": base + "\n", "leading": "\n" + base, "cr": base + "\rRequires-Dist: evil",
+                    "crlf-trailing": base + "\r\n", "blank-interior": base + "\n\nevil body"}[shape]
+        d["_shape"] = shape
+        d[inject] = {"description": brk("summary"), "keywords": [brk("kw")],
+                     "authors": [brk("Eve") + " <e@example.com>"], "classifiers": [brk("Topic :: X")],
+                     "urls": {brk("Home"): "https://example.com"}}[inject]
+        d["_twin"][inject] = {"description": "summary", "keywords": ["kw"], "authors": ["Eve <e@example.com>"], "classifiers": ["Topic :: X"],
+                              "urls": {"Home": "https://example.com"}}[inject]
     return d
 
 def pyproject(d, style):
@@ -103,9 +112,12 @@ def build(d, style):
         if d["readme"] is not None: (tmp / "README.md").write_bytes(d["readme"].encode("utf-8"))
         try:
             b = Builder(Factory().create_poetry(tmp))
-            return b.get_metadata_content(), b._meta
         except Exception as e:  # noqa
             return e, None
+        try:
+            return b.get_metadata_content(), b._meta
+        except Exception as e:  # noqa
+            return e, b._meta
     finally:
         shutil.rmtree(tmp, ignore_errors=True)
 
@@ -167,6 +179,21 @@ def judge(d, text, style):
     if extra: return f"unexpected headers {extra}"
     return None
 
+INJ_HDR = {"description": ["Summary"], "keywords": ["Keywords"], "authors": ["Author", "Author-email"], "classifiers": ["Classifier"], "urls": ["Project-URL"]}
+def judge_injection(d, text, style, inject):
+    """A value with a line break that is not refused must leave every other field and the body as they are without it."""
+    twin_text, _ = build(d["_twin"], style)
+    if isinstance(twin_text, Exception): return None
+    a, b = email.message_from_string(text), email.message_from_string(twin_text)
+    skip = set(INJ_HDR[inject])
+    ia = [(k, norm(v)) for k, v in a.items() if k not in skip]; ib = [(k, norm(v)) for k, v in b.items() if k not in skip]
+    if ia != ib:
+        return f"a line break in {inject} ({d['_shape']}) changed other fields: {[x for x in ia if x not in ib][:3]} / missing {[x for x in ib if x not in ia][:3]}"
+    if (a.get_payload() or "").strip("\r\n") != (b.get_payload() or "").strip("\r\n"):
+        return f"a line break in {inject} ({d['_shape']}) changed the body: {a.get_payload()[:80]!r}"
+    if a.defects: return f"a line break in {inject} ({d['_shape']}) gives parser defects {a.defects}"
+    return None
+
 def enc_meta(m):
     o = lambda v: ("S" + str(v)) if v else "N"
     l = lambda xs: "\x1f".join(xs)
@@ -182,7 +209,7 @@ def run(tier):
         R.proof = dict(ok=False, theorems=[], log=log[-3000:])
         return R.finish(TRUSTED, ASSUME, RULE, "make -C coq Properties/C14.vo")
     M = common.Model(); rng = R.rng
-    mreq, midx = [], []
+    mreq, midx, ireq, iidx = [], [], [], []
     for i in range(250 if tier == "quick" else 5000):
         inject = rng.choice(["description", "keywords", "authors", "classifiers", "urls"]) if i % 6 == 5 else None
         d = gen(rng, inject)
@@ -191,14 +218,16 @@ def run(tier):
         texts = {}
         for style in ("project", "poetry"):
             text, meta = build(d, style)
+            if inject and meta is not None and all(ord(c) < 256 and c != "\x1f" for c in "".join(enc_meta(meta))):
+                ireq.append(enc_meta(meta)); iidx.append((d, style, text))
             if isinstance(text, Exception):
                 if inject: R.count("injection_refused"); continue
                 R.fail(dict(fields=d, style=style), f"valid pyproject rejected: {type(text).__name__}: {text}"); continue
             texts[style] = text
             if inject:
-                msg = email.message_from_string(text)
-                if "evil" in " ".join(msg.get_all("Requires-Dist") or []):
-                    R.fail(dict(fields=d, style=style), f"a line break in {inject} injected a Requires-Dist header")
+                R.count("injection_accepted")
+                det = judge_injection(d, text, style, inject)
+                if det: R.fail(dict(fields={k: v for k, v in d.items() if k != "_twin"}, twin=d["_twin"], style=style, inject=inject), det)
                 continue
             det = judge(d, text, style)
             if det: R.fail(dict(fields=d, style=style), det)
@@ -213,12 +242,22 @@ def run(tier):
         R.count("model_render_cases")
         if m[:2] != ["ok", text]:
             R.disagree("METADATA text rendered by the model from the implementation's Metadata fields", dict(fields=d, style=style), m[1][:400] if len(m) > 1 else m, text[:400])
+    for (d, style, text), m in zip(iidx, M.many(ireq)):
+        R.count("model_guard_cases")
+        refused = isinstance(text, Exception)
+        if (m[0] != "ok") != refused or (not refused and m[:2] != ["ok", text]):
+            R.disagree("line-break guard: model and implementation must refuse the same Metadata fields (and render the same text otherwise)",
+                       dict(fields={k: v for k, v in d.items() if k != "_twin"}, twin=d["_twin"], style=style), m[:2], "refused" if refused else text[:400])
     M.close()
     return R.finish(TRUSTED, ASSUME, RULE, "make -C coq Properties/C14.vo && coqc Properties/C14.v (Print Assumptions)")
 
 def replay(rep):
     c = rep["case"]; d = c["fields"]
     bad = 0
+    if "inject" in c:
+        d = dict(d, _twin=c["twin"]); text, _ = build(d, c["style"])
+        det = None if isinstance(text, Exception) else judge_injection(d, text, c["style"], c["inject"])
+        print("FAILS: " + det if det else "holds"); return 1 if det else 0
     for style in ([c["style"]] if "style" in c else ["project", "poetry"]):
         text, _ = build(d, style)
         det = f"rejected: {text}" if isinstance(text, Exception) else judge(d, text, style)
